@@ -165,7 +165,7 @@ func expandC14(t *testing.T, seed uint64, tier string) []*core.Plan {
 		// goes away and everything must recover
 		p.SetKnob("slow", 1)
 		p.SetKnob("queue", r.Pick(2, 4, 8))
-		p.Items = append(p.Items, core.Item{K: "hslow", P: 1})
+		p.Items = append(p.Items, core.Item{K: "hslow", P: 1, B: r.Intn(2)})
 		k := r.Range(6, 30)
 		for i := 0; i < k; i++ {
 			it := wpub()
@@ -328,7 +328,9 @@ func runC14(t *testing.T, p *core.Plan) *core.Result {
 				hostile[it.P] = pr
 				hostiles = append(hostiles, pr)
 				c := packet.NewConnect()
-				c.ClientID, c.CleanSession, c.KeepAlive = "slow", true, 10
+				// a temporary or (B=1) a persistent session: MemoryBackend.Publish
+				// waits for room in their queues on different code paths
+				c.ClientID, c.CleanSession, c.KeepAlive = "slow", it.B == 0, 10
 				pr.Send(c)
 				sp := packet.NewSubscribe()
 				sp.ID = 1
